@@ -103,7 +103,7 @@ pub fn env_value(k: u8) -> AbsEnv {
     let p = || Sc::Process("web".into());
     match k {
         0 => AbsEnv::new(),
-        1 => mk(&[(Sc::All, Beh::Override, "A", "all"), (Sc::Build, Beh::Append, "A", "build"), (Sc::Launch, Beh::Prepend, "A", "launch"), (p(), Beh::Default, "A", "proc"), (Sc::Process("worker".into()), Beh::Override, "W", "w")]),
+        1 => mk(&[(Sc::All, Beh::Override, "A", "all"), (Sc::Build, Beh::Append, "A", "build"), (Sc::Launch, Beh::Prepend, "A", "launch"), (p(), Beh::Default, "A", "proc"), (Sc::Process("web.worker".into()), Beh::Override, "W", "w")]),
         2 => mk(&[(Sc::Build, Beh::Append, "PATH", "/x"), (Sc::Build, Beh::Delim, "PATH", ":"), (Sc::Launch, Beh::Override, "B.c", "l\n")]),
         _ => mk(&[(p(), Beh::Override, "ONLY_PROC", "1")]),
     }
@@ -687,7 +687,13 @@ pub fn step(snap: &Snapshot, live: &BTreeSet<usize>, rep: &Rep, op: &Op, verbose
             let types = (*launch, *build, false);
             match &out {
                 Out::Ok(Some(o)) => {
-                    let ok_state = if present(&pre) { matches!(o, Obs::EmptyNew | Obs::EmptyInvalid(_) | Obs::EmptyRestored(_)) } else { *o == Obs::EmptyNew };
+                    // the built-in callbacks of uncached_layer always decide "delete": a layer that was there and
+                    // whose toml parses is reported as emptied-after-restore, an absent one as newly created
+                    let ok_state = if present(&pre) {
+                        if matches!(pre.toml, Some(Err(_))) { matches!(o, Obs::EmptyInvalid(_) | Obs::EmptyRestored(_)) } else { matches!(o, Obs::EmptyRestored(_)) }
+                    } else {
+                        *o == Obs::EmptyNew
+                    };
                     if !ok_state {
                         bad = Some(("reported-state:uncached".into(), format!("{op:?} on [{}] returned {o:?}", pre.describe())));
                     } else if let Some(b) = check_layer(&post, &pre, &PredLayer::Fresh { types }) {
